@@ -402,6 +402,27 @@ if mode == 'tcp':
     on_loop(server, sloops, '.srv(%%d)' %% port)
 for s in setup:
     on_loop(server, sloops, s); twin(s)
+# Python callables held by the server (KGLambda), and a connection handle to a second server held in a server variable
+for k_ in (server, twin):
+    k_['pinc'] = lambda x: x + 1
+    k_['padd'] = lambda x, y: [x, y]
+# a second server in its own process (one IPC server per process): the first server holds a client handle to it (a gateway)
+import subprocess as _sp
+port2 = port + 37
+S2 = ("import sys,os,asyncio,time\n"
+      "from klongpy.repl import create_repl\n"
+      "k,l=create_repl()\n"
+      "async def e(t): return k(t)\n"
+      "def on(t): return asyncio.run_coroutine_threadsafe(e(t), l[3]).result(20)\n"
+      "ok=on('.srv(%%d)' %% int(sys.argv[1]))\n"
+      "for s in sys.argv[2:]: on(s)\n"
+      "print('READY', ok, flush=True)\n"
+      "time.sleep(3000)\n")
+server2 = _sp.Popen([sys.executable, "-W", "ignore", "-c", S2, str(port2)] + setup, stdout=_sp.PIPE, stderr=_sp.DEVNULL)
+_line = server2.stdout.readline().decode()
+if not _line.startswith("READY 1"):
+    print("SERVER2 failed: " + _line); sys.stdout.flush(); server2.kill(); os._exit(3)
+on_loop(server, sloops, 'up::.cli(%%d)' %% port2)
 for nm0 in ['va', 'vb', 'vc']:
     on_loop(server, sloops, nm0 + '::0'); twin(nm0 + '::0')
 # ---- 'pipe' mode: the real client and the real server-side connection handler joined by an in-memory
@@ -410,6 +431,7 @@ for nm0 in ['va', 'vb', 'vc']:
 from klongpy.sys_fn_ipc import (NetworkClient, NetworkClientDictHandle, ReaderWriterConnectionProvider, TcpServerConnectionHandler)
 frag_rng = random.Random(seed * 7919 + 13)
 pipe_stats = {"writes": 0, "chunks": 0, "max_chunks": 0}
+SLOW_WRITES = (25, 26, 60)       # the k-th writes on the pipe whose second fragment is delayed
 class PipeWriter:
     def __init__(self, peer_loop, peer_reader):
         self.peer_loop = peer_loop; self.peer_reader = peer_reader; self.closing = False
@@ -420,9 +442,18 @@ class PipeWriter:
         cuts = sorted(min(max(frag_rng.choice(hot) if frag_rng.random() < 0.6 else frag_rng.randint(0, n), 0), n) for _ in range(ncuts))
         pieces = [data[a:b] for a, b in zip([0] + cuts, cuts + [n])]
         pipe_stats["writes"] += 1; pipe_stats["chunks"] += len(pieces); pipe_stats["max_chunks"] = max(pipe_stats["max_chunks"], len(pieces))
-        for pc in pieces:
+        slow = pipe_stats["writes"] in SLOW_WRITES and n > 22
+        if slow:
+            cut = frag_rng.choice([16, 18, 20, 21])
+            pieces = [data[:cut], data[cut:]]
+            pipe_stats["slow"] = pipe_stats.get("slow", 0) + 1
+        for i_, pc in enumerate(pieces):
             if pc:
-                self.peer_loop.call_soon_threadsafe(self.peer_reader.feed_data, pc)
+                if slow and i_ == 1:
+                    # the rest of the frame arrives 1.5 s later (a slow network): delivery must still be intact
+                    self.peer_loop.call_soon_threadsafe(self.peer_loop.call_later, 1.5, self.peer_reader.feed_data, pc)
+                else:
+                    self.peer_loop.call_soon_threadsafe(self.peer_reader.feed_data, pc)
     async def drain(self):
         await asyncio.sleep(0)
     def close(self):
@@ -503,9 +534,11 @@ for g in kind_groups:
             for l_ in order:
                 plan.append((f_, l_))
 for opi in range(n_ops):
-    plan.append((rng.choice(['expr', 'expr', 'sym', 'fncall1', 'fncall2', 'fncall3', 'fncall0', 'proxy', 'dset', 'dget', 'assign', 'undef', 'undeftest']), None))
+    plan.append((rng.choice(['expr', 'expr', 'sym', 'proxyredef', 'pycall', 'fncall1', 'fncall2', 'fncall3', 'fncall0', 'proxy', 'dset', 'dget', 'assign', 'undef', 'undeftest']), None))
 for u_ in range(6):
     plan.insert(0, ('sym', None))
+for u_ in range(4):
+    plan.insert(0, ('proxyredef', None)); plan.insert(0, ('pycall', None))
 for form, fixed_lit in plan:
     if hung:
         break
@@ -547,6 +580,28 @@ for form, fixed_lit in plan:
     elif form == 'proxy':
         r = safe(lambda: on_loop(client, cloops, 'q::cli(:idf);q(%%s)' %% lit)); l = safe(lambda: twin('idf(%%s)' %% lit))
         record(form, 'proxy idf(%%s)' %% lit, r, l)
+    elif form == 'proxyredef':
+        # fetch a proxy, redefine the function on the server with another arity, fetch again, call with the new arguments
+        ar = rng.choice([1, 2, 3]); body = {1: '{x}', 2: '{x,y}', 3: '{x,y,z}'}[ar]
+        args = ';'.join([lit, lit2, '7'][:ar])
+        dfn = 'rg::%%s' %% body
+        safe(lambda: on_loop(client, cloops, 'cli("%%s")' %% dfn)); twin(dfn)
+        how = rng.choice(['call', 'dict'])
+        fetch = 'q::cli(:rg)' if how == 'call' else 'q::dcli?:rg'
+        r = safe(lambda: on_loop(client, cloops, '%%s;q(%%s)' %% (fetch, args))); l = safe(lambda: twin('rg(%%s)' %% args))
+        record(form, '%%s via %%s; rg(%%s)' %% (dfn, how, args), r, l)
+    elif form == 'pycall':
+        # functions that are not Klong functions: Python callables and a connection handle held by the server
+        which = rng.choice(['pinc', 'padd', 'up', 'upd'])
+        if which == 'pinc':
+            r = safe(lambda: on_loop(client, cloops, 'q::cli(:pinc);q(41)')); l = safe(lambda: twin('pinc(41)'))
+        elif which == 'padd':
+            r = safe(lambda: on_loop(client, cloops, 'q::dcli?:padd;q(1;%%s)' %% lit)); l = safe(lambda: twin('padd(1;%%s)' %% lit))
+        elif which == 'up':
+            r = safe(lambda: on_loop(client, cloops, 'q::cli(:up);q("sq(9)")')); l = safe(lambda: twin('sq(9)'))
+        else:
+            r = safe(lambda: on_loop(client, cloops, 'q::dcli?:up;q("add(2;3)")')); l = safe(lambda: twin('add(2;3)'))
+        record(form, which, r, l)
     elif form == 'dset':
         def dset_():
             arr = np.empty(2, dtype=object); arr[0] = KGSym(nm); arr[1] = on_loop(client, cloops, lit)
@@ -577,6 +632,7 @@ for form, fixed_lit in plan:
         record(form, ':_1%%0', r, l)
         r = safe(lambda: on_loop(client, cloops, ':_(cli(:lu,,9)@1)')); l = safe(lambda: twin(':_(lu(9)@1)'))
         record(form, ':_ nested', r, l)
+server2.kill()
 print("PIPESTATS " + json.dumps(pipe_stats))
 print("RESULTS " + json.dumps(results))
 sys.stdout.flush()
